@@ -61,6 +61,50 @@ Theorem C04_fails_iff_spec_partial : forall valid hvalid d r,
 Proof. exact fails_iff_spec. Qed.
 Print Assumptions C04_fails_iff_spec_partial.
 
+(* integer keys (documents handed over as Python dicts), check by check.  The body schema check agrees with the
+   documentation whatever the type of the keys (the lookup of validate_response goes through str()) ... *)
+Theorem C04_schema_check_any_keys_partial : forall valid d r,
+  no_wildcard_keys d = true -> single_media_type d = true -> flat_refs d = true ->
+  body_decodes r = true -> ct_wellformed r = true -> ct_conforms d r = true ->
+  schema_check valid d r = spec_schema_check valid d r.
+Proof. exact schema_agree_any_keys. Qed.
+Print Assumptions C04_schema_check_any_keys_partial.
+
+(* ... so the two partial theorems hold with no_int_keys weakened to the per-response predicate: the raw-key lookup
+   of get_content_types / get_headers changes neither of their two outcomes *)
+Theorem C04_verdict_eq_spec_int_keys_partial : forall valid hvalid d r,
+  no_wildcard_keys d = true -> single_media_type d = true -> int_keys_immaterial hvalid d r = true -> keys_parse d = true ->
+  flat_refs d = true -> no_header_refs d = true -> body_decodes r = true -> ct_wellformed r = true ->
+  ct_conforms d r = true ->
+  verdict valid hvalid d r = spec_verdict valid hvalid d r.
+Proof. exact verdict_eq_spec_int_keys. Qed.
+Print Assumptions C04_verdict_eq_spec_int_keys_partial.
+
+Theorem C04_fails_iff_spec_int_keys_partial : forall valid hvalid d r,
+  no_wildcard_keys d = true -> single_media_type d = true -> int_keys_immaterial hvalid d r = true -> keys_parse d = true ->
+  flat_refs d = true -> no_header_refs d = true -> body_decodes r = true -> ct_wellformed r = true ->
+  (verdict valid hvalid d r = [] <-> spec_verdict valid hvalid d r = []).
+Proof. exact fails_iff_spec_int_keys. Qed.
+Print Assumptions C04_fails_iff_spec_int_keys_partial.
+
+(* the weakened hypothesis is weaker (every document without integer keys satisfies it) and strictly so: with the key
+   200 written as an integer a violating JSON body is reported (3.0 and 2.0), a body conforming to 200 is not judged
+   by default; the F3 witness itself is outside *)
+Theorem C04_int_keys_immaterial_covers : forall hvalid d r, no_int_keys d = true -> int_keys_immaterial hvalid d r = true.
+Proof. exact immaterial_of_no_int_keys. Qed.
+Print Assumptions C04_int_keys_immaterial_covers.
+
+Theorem C04_int_key_body_examples :
+  int_keys_immaterial hnone d_f3 r_f3 = false
+  /\ no_int_keys d_f3 = false /\ int_keys_immaterial hnone d_f3 r_f3_json = true
+  /\ verdict none_valid hnone d_f3 r_f3_json = [FBodySchema] /\ spec_verdict none_valid hnone d_f3 r_f3_json = [FBodySchema]
+  /\ int_keys_immaterial hnone d_f3_default r_f3_json = true
+  /\ verdict (only_valid 0) hnone d_f3_default r_f3_json = [] /\ verdict (only_valid 1) hnone d_f3_default r_f3_json = [FBodySchema]
+  /\ int_keys_immaterial hnone d_f3_20 r_f3_json = true
+  /\ verdict none_valid hnone d_f3_20 r_f3_json = [FBodySchema] /\ spec_verdict none_valid hnone d_f3_20 r_f3_json = [FBodySchema].
+Proof. exact int_key_body_examples. Qed.
+Print Assumptions C04_int_key_body_examples.
+
 Theorem C04_no_check_raises_partial : forall valid hvalid d r,
   no_wildcard_keys d = true -> no_int_keys d = true -> keys_parse d = true ->
   flat_refs d = true -> body_decodes r = true -> ct_wellformed r = true ->
